@@ -34,7 +34,8 @@ PROBES = ["sched/messages", "sched/delayed_messages", "sched/stalls", "sched/sta
           "sched/recv_blocked_on_undelivered", "sched/reordered_deliveries", "probes/two_chunks_on_periodic_axis",
           "probes/uneven_chunks", "probes/single_cell_chunk", "probes/script_solve", "probes/script_operator",
           "probes/adaptive_allreduce", "probes/collection_state", "faults/fired_stop_on_main_rank", "probes/vector_or_tensor_field", "probes/integral_allreduce",
-          "probes/skipped_inadmissible", "probes/setup_invariants_on_large_decomposition", "probes/eleven_or_more_chunks_on_an_axis"]
+          "probes/skipped_inadmissible", "probes/setup_invariants_on_large_decomposition", "probes/eleven_or_more_chunks_on_an_axis",
+          "probes/padded_array_roundtrip_and_collectives", "probes/extract_subfield"]
 COMPONENTS = {
     "real": ["pde.grids._mesh.GridMesh (split/combine/neighbours/flags/extract_boundary_conditions)", "pde.grids.boundaries.local._MPIBC",
              "BoundaryAxisBase.set_ghost_cells exchange", "pde.backends.numba_mpi.NumbaMPIBackend sender/setter chains (python mode)",
@@ -237,6 +238,8 @@ def gen_plan(rng, tier, idx):
             g_b = {"cls": "CartesianGrid", "bounds": [[rng.choice([0.0, -1.0, 0.3]), rng.choice([1.0, 2.5, 7.0])] for _ in shape_b],
                    "shape": shape_b, "periodic": [rng.random() < 0.5 for _ in shape_b]}
         plan["big_mesh"] = {"grid": g_b, "decomposition": dec_b}
+    if script == "operator" and rng.random() < 0.3:
+        plan["helpers"] = True  # padded-array round trip and the mesh's collective helpers (drawn last)
     return plan
 
 
@@ -409,6 +412,24 @@ def _rank_program(rank, size, plan):
         res = np.full((sub.grid.dim,) * info.rank_out + tuple(sub.grid.shape), np.nan, dtype=full.dtype)
         backend.make_operator_no_bc(sub.grid, plan["op"])(full, res)
         out["setter"] = mesh.combine_field_data_mpi(res)
+    if plan.get("helpers"):
+        # round trip of the padded array (ghost cells included) and the mesh's collective helpers
+        full0 = np.array(field._data_full, copy=True)
+        full0[...] = np.arange(full0.size, dtype=float).reshape(full0.shape) + 0.25
+        sub_full = mesh.split_field_data_mpi(full0, with_ghost_cells=True)
+        out["ghost_sub_shape_ok"] = mesh.gather(bool(sub_full.shape[-grid.num_axes:] == tuple(mesh.current_grid._shape_full)))
+        out["ghost_sub_equal"] = mesh.gather(bool(np.array_equal(sub_full, mesh.extract_field_data(full0, mesh.current_node, with_ghost_cells=True))))
+        out["ghost_roundtrip"] = mesh.combine_field_data_mpi(np.array(sub_full, copy=True), with_ghost_cells=True)
+        # the same for the valid cells, combined into an array supplied by the caller
+        sub_valid = mesh.split_field_data_mpi(np.array(full0[(...,) + (slice(1, -1),) * grid.num_axes], copy=True), with_ghost_cells=False)
+        target = np.full(field.data.shape, np.nan) if rank == 0 else None
+        res_valid = mesh.combine_field_data_mpi(np.array(sub_valid, copy=True), out=target)
+        out["valid_roundtrip"] = None if rank else np.array(target, copy=True)
+        out["valid_roundtrip_returns_out"] = None if rank else bool(res_valid is target)
+        out["bcast"] = mesh.gather(mesh.broadcast(("payload", rank)))          # everybody must hold the main node's value
+        out["scatter"] = mesh.gather(mesh.scatter([("item", k) for k in range(size)] if rank == 0 else None))
+        out["allgather"] = mesh.gather(mesh.allgather(("from", rank)))
+        out["node_ids"] = mesh.gather(int(mesh.current_node))
     if plan.get("split_collection"):
         import pde as _p
 
@@ -518,6 +539,33 @@ def _mesh_invariants(plan, fail, probe):
         for i in range(n):
             if parts[i].shape[-grid.num_axes:] != mesh[i]._shape_full:
                 fail("C17/split-combine", f"sub-field {i} has shape {parts[i].shape}, its grid {mesh[i]._shape_full}")
+        # the same through field objects (extract_subfield), for single fields and - once - for a collection
+        f._data_full = full
+        f.label = "lbl"
+        for w in (False, True):
+            subs = [mesh.extract_subfield(f, i, with_ghost_cells=w) for i in range(min(n, 12))]
+            for i, sf in enumerate(subs):
+                want = mesh.extract_field_data(full if w else f.data, i, with_ghost_cells=w)
+                got = sf._data_full if w else sf.data
+                if type(sf) is not type(f) or sf.grid is not mesh[i] or sf.label != f.label or sf.dtype != f.dtype or not np.array_equal(got, want):
+                    fail("C17/split-combine", f"extract_subfield(node {i}, with_ghost_cells={w}) of a rank-{rank} field on {gspec}, {dec}: class "
+                         f"{type(sf).__name__}, label {sf.label!r}, dtype {sf.dtype}, data equal to extract_field_data: {bool(np.array_equal(got, want))}",
+                         key="C17/split-combine/extract_subfield")
+        probe("extract_subfield")
+    if gspec["cls"] != "SphericalSymGrid":
+        import pde as _pde
+
+        coll = _pde.FieldCollection([_field(plan, grid, 0), _field(plan, grid, 1)], label="both")
+        # (ghost cells are uninitialised memory: give them values, NaN patterns would never compare equal)
+        coll._data_full[...] = np.random.default_rng(plan["field_seed"] + 5).uniform(size=coll._data_full.shape)
+        for w in (False, True):
+            for i in range(min(n, 4)):
+                sc = mesh.extract_subfield(coll, i, with_ghost_cells=w)
+                want = mesh.extract_field_data(coll._data_full if w else coll.data, i, with_ghost_cells=w)
+                got = sc._data_full if w else sc.data
+                if type(sc) is not _pde.FieldCollection or len(sc) != 2 or sc.label != "both" or not np.array_equal(got, want):
+                    fail("C17/split-combine", f"extract_subfield(node {i}, with_ghost_cells={w}) of a [scalar, vector] collection on {gspec}, {dec} "
+                         "does not hold the node's part of the data", key="C17/split-combine/extract_subfield-collection")
     # neighbour relations: symmetric, wrap only on periodic axes; link flags agree at both ends and are unique per rank pair
     links = {}
     for a in range(n):
@@ -723,6 +771,29 @@ def execute(plan):
                 d = float(np.nanmax(np.abs(r0[route] - ref["op"]))) if r0[route].shape == ref["op"].shape else float("nan")
                 fail("C17/operator-differs-from-serial", f"{plan['op']} bc={plan['bc']} on {gspec} split {plan['decomposition']} dtype={plan['dtype']} via {route}: "
                      f"combined result differs from the undivided grid by {d:.3e}", key=f"C17/operator-differs-from-serial/{route}")
+        if r0.get("ghost_roundtrip") is not None:
+            probe("padded_array_roundtrip_and_collectives")
+            n_ranks = plan["size"]
+            f0 = _field(plan, grid, plan["rank_in"])
+            full0 = np.array(f0._data_full, copy=True)
+            full0[...] = np.arange(full0.size, dtype=float).reshape(full0.shape) + 0.25
+            if not np.array_equal(r0["ghost_roundtrip"], full0):
+                fail("C17/split-combine", f"split_field_data_mpi + combine_field_data_mpi with ghost cells is not the identity ({gspec}, {plan['decomposition']})",
+                     key="C17/split-combine/mpi-with-ghost-cells")
+            elif not all(r0["ghost_sub_shape_ok"]) or not all(r0["ghost_sub_equal"]):
+                fail("C17/split-combine", f"split_field_data_mpi(with_ghost_cells=True): the array received by a node is not the node's part of the padded "
+                     f"array (shape ok per node {r0['ghost_sub_shape_ok']}, equal per node {r0['ghost_sub_equal']})", key="C17/split-combine/mpi-with-ghost-cells")
+            if not np.array_equal(r0["valid_roundtrip"], full0[(...,) + (slice(1, -1),) * grid.num_axes]) or not r0["valid_roundtrip_returns_out"]:
+                fail("C17/split-combine", f"split_field_data_mpi + combine_field_data_mpi(out=...) of the valid cells is not the identity written into "
+                     f"`out` (returned out: {r0['valid_roundtrip_returns_out']}) ({gspec}, {plan['decomposition']})", key="C17/split-combine/mpi-valid-out")
+            if r0["node_ids"] != list(range(n_ranks)):
+                fail("C17/collectives", f"current_node per rank is {r0['node_ids']}")
+            if [tuple(x) for x in r0["bcast"]] != [("payload", 0)] * n_ranks:
+                fail("C17/collectives", f"mesh.broadcast delivered {r0['bcast']}")
+            if [tuple(x) for x in r0["scatter"]] != [("item", k) for k in range(n_ranks)]:
+                fail("C17/collectives", f"mesh.scatter delivered {r0['scatter']}")
+            if any([tuple(x) for x in row] != [("from", k) for k in range(n_ranks)] for row in r0["allgather"]):
+                fail("C17/collectives", f"mesh.allgather delivered {r0['allgather']}")
         if "collection" in r0 and r0["collection"] is not None:
             import pde as _p
 
@@ -751,6 +822,8 @@ def simplify(plan):
         return p
 
     s = plan["sched"]
+    if plan.get("helpers"):
+        yield variant(lambda p: p.pop("helpers"))
     if plan.get("big_mesh"):
         yield variant(lambda p: p.pop("big_mesh"))
         bm = plan["big_mesh"]
